@@ -119,6 +119,14 @@ func init() {
 				return "", err
 			}
 		}
+		// ---- what the miss branch of createSeriesID reads (round 12: the LRU sequence cache may have dropped the metric):
+		// invertedIndex.getSeriesIDs = memory tables, then the kv family's snapshot; the memory tables = mutable, immutable
+		for _, p := range [][2]string{{"invertedGetSeriesIDsCalls", "getSeriesIDs"}, {"invertedFindFromMemCalls", "findSeriesIDsByKeyFromMem"}} {
+			if err := emit(p[0], FindFunc(mif, "invertedIndex", p[1]), "invertedIndex."+p[1]); err != nil {
+				return "", err
+			}
+		}
+		sb.WriteString("\ndef invertedFindFromMemTiers : List String := " + LeanStrList(identCallArgTexts(FindFunc(mif, "invertedIndex", "findSeriesIDsByKeyFromMem"), "findSeriesIDs")) + "\n")
 		// ---- createFn of the namespace / metric dictionaries (limits first, then the counter) and what createValue
 		// does when createFn fails
 		for _, pr := range [][2]string{{"metaGenNSIDCalls", "genNSID"}, {"metaGenMetricIDFnCalls", "genMetricID"}} {
@@ -412,6 +420,26 @@ func callArgTexts(fd *ast.FuncDecl, sel string) []string {
 			return true
 		}
 		if se, ok := ce.Fun.(*ast.SelectorExpr); ok && se.Sel.Name == sel {
+			out = append(out, exprName(ce.Args[0]))
+		}
+		return true
+	})
+	return out
+}
+
+// identCallArgTexts: first-argument texts of the calls `name(arg, …)` (name a plain identifier, e.g. a local
+// closure) in fd's body, in source order.
+func identCallArgTexts(fd *ast.FuncDecl, name string) []string {
+	var out []string
+	if fd == nil || fd.Body == nil {
+		return out
+	}
+	ast.Inspect(fd.Body, func(n ast.Node) bool {
+		ce, ok := n.(*ast.CallExpr)
+		if !ok || len(ce.Args) == 0 {
+			return true
+		}
+		if id, ok := ce.Fun.(*ast.Ident); ok && id.Name == name {
 			out = append(out, exprName(ce.Args[0]))
 		}
 		return true
